@@ -18,7 +18,9 @@ FUNCS = ["likelihood", "likelihood_unit", "prior", "prior_from_unit", "prior_uni
 
 
 def f_exact(a, b):
-    return -0.5 * (a * a + b * b)
+    # exactly -inf on part of the box (a hard cut in the likelihood is a legitimate zero-likelihood region): batch evaluation must return the same -inf
+    with np.errstate(invalid="ignore"):
+        return np.where(np.asarray(b) > 3.0, -np.inf, -0.5 * (a * a + b * b)) if np.ndim(b) else (-np.inf if b > 3.0 else -0.5 * (a * a + b * b))
 
 
 def one(v):
